@@ -272,6 +272,16 @@ func newDpkgSigFileLine(name string, fileContent []byte) dpkgSigFileLine {
 }
 
 func readDpkgSigData(info *nfpm.Info, debianBinary, controlTarGz, dataTarball []byte) (io.Reader, error) {
+	// the manifest has to name the data member as it is stored in the archive
+	dataTarballName := "data.tar.gz"
+	switch info.Deb.Compression {
+	case "xz":
+		dataTarballName = "data.tar.xz"
+	case "zstd":
+		dataTarballName = "data.tar.zst"
+	case "none":
+		dataTarballName = "data.tar"
+	}
 	data := dpkgSigData{
 		Signer: info.Deb.Signature.Signer,
 		Date:   modtime.Get(info.MTime),
@@ -279,7 +289,7 @@ func readDpkgSigData(info *nfpm.Info, debianBinary, controlTarGz, dataTarball []
 		Files: []dpkgSigFileLine{
 			newDpkgSigFileLine("debian-binary", debianBinary),
 			newDpkgSigFileLine("control.tar.gz", controlTarGz),
-			newDpkgSigFileLine("data.tar.gz", dataTarball),
+			newDpkgSigFileLine(dataTarballName, dataTarball),
 		},
 	}
 	temp, _ := template.New("dpkg-sig").Funcs(template.FuncMap{
